@@ -103,6 +103,7 @@ def lake_build(targets: list[str], before=None) -> BuildResult:
             before()
         rc0, out0 = sh(["lake", "build", "dxdriver"], cwd=LEAN, timeout=3000)
         rc, out = sh(["lake", "build"] + targets, cwd=LEAN, timeout=3000)
+        _snapshot_driver()
     broken = []
     for m in re.finditer(r"error: ([\w/\.]+\.lean):(\d+):(\d+): (.*)", out0 + out):
         f, ln, _, msg = m.groups()
@@ -115,6 +116,24 @@ def lake_build(targets: list[str], before=None) -> BuildResult:
     if not ok and not broken:
         broken.append({"module": "?", "decl": "?", "msg": (out0 + out)[-600:]})
     return BuildResult(ok, broken, out0 + out, time.time() - t0)
+
+
+_DRIVER_RUN = None
+
+
+def _snapshot_driver():
+    """Private copy of the driver binary for this run (taken under the build lock): a concurrent check —
+    e.g. a mutation run that regenerates tables — may relink lean/.lake/build/bin/dxdriver at any time."""
+    global _DRIVER_RUN
+    import atexit
+    import shutil
+
+    if DRIVER.exists():
+        dst = DRIVER.with_name(f"dxdriver.run{os.getpid()}")
+        shutil.copy2(DRIVER, dst)
+        if _DRIVER_RUN is None:
+            atexit.register(lambda: dst.unlink(missing_ok=True))
+        _DRIVER_RUN = dst
 
 
 def list_theorems(module: str, prefix: str) -> list[str]:
@@ -193,7 +212,7 @@ def drive(lines: list[str]) -> list[str]:
     for ln in lines:
         assert "\n" not in ln
     p = subprocess.run(
-        [str(DRIVER)], input="\n".join(lines) + "\n", capture_output=True, text=True, timeout=1800
+        [str(_DRIVER_RUN or DRIVER)], input="\n".join(lines) + "\n", capture_output=True, text=True, timeout=1800
     )
     out = p.stdout.split("\n")
     if out and out[-1] == "":
